@@ -14,6 +14,7 @@ abbrev mkBeginNonAcq : Nat := 3   -- a non-acquiring operation starts (Debug, is
 abbrev mkEndCall : Nat := 4   -- the call returned or unwound
 abbrev mkKeyBack : Nat := 5   -- the API has given the thread its key back (or left it usable)
 abbrev mkBody : Nat := 6   -- the scoped closure was invoked
+abbrev mkUserPanic     : Nat := 7   -- user code panics (while a guard is alive / inside a closure)
 abbrev mkOutOk : Nat := 10
 abbrev mkOutWouldBlock : Nat := 11
 abbrev mkOutPoisoned : Nat := 12  -- acquired, result was `Err(PoisonError)` carrying the guard/data
@@ -165,7 +166,7 @@ def guardPhase (C : Ctx) (S : Shape) (ses : Session) (u : UserSt) : Prog Unit (N
   bindX (bodySteps C S ses.body) (fun _ => afterPanic) fun _ =>
     match ses.exit with
     | .forget => op .keyForget fun _ => done (out, u)
-    | .panic => afterPanic
+    | .panic => op (.mark mkUserPanic) fun _ => afterPanic
     | .unlock =>
       Prog.bind (guardDrop ses.mode items false) fun panicked =>
         if panicked then op .keyDrop fun _ => op (.mark mkKeyBack) fun _ => done (mkOutPanic, u)
@@ -210,7 +211,7 @@ def scopedHeld (C : Ctx) (S : Shape) (ses : Session) (u' : UserSt) : Prog Unit (
   let out := if poisoned then mkOutPoisoned else mkOutOk
   let closure : Prog Unit Unit :=
     Prog.bind (bodySteps C S ses.body) fun _ =>
-      match ses.exit with | .panic => unwind () | _ => done ()
+      match ses.exit with | .panic => op (.mark mkUserPanic) fun _ => unwind () | _ => done ()
   let onUnwind : Prog Unit Unit :=
     match isPoisonableTop S with
     | some p => op (.poisonSet p) fun _ => L.rel ses.mode
